@@ -14,7 +14,9 @@ pub const SITE_SCANNER_READ: usize = 0;
 pub const SITE_ZINC_LEXER_READ: usize = 1;
 /// filter `Lexer::read`
 pub const SITE_FILTER_LEXER_READ: usize = 2;
-pub const N_SITES: usize = 3;
+/// any `while` / `loop` iteration of the Zinc and filter decoders, and each `RowIterator::next`
+pub const SITE_LOOP: usize = 3;
+pub const N_SITES: usize = 4;
 
 /// Panic payload used when an armed fuel limit is exhausted.
 #[derive(Debug, Clone, Copy)]
